@@ -1,0 +1,19 @@
+//go:build verif
+
+package pipeline
+
+// Contracts for /verif (contract-based deductive verification). Comment-only.
+
+// C44: a submission that returns an error has not consumed a sequence number (the apply stage waits
+// for every number in turn, so a consumed-but-undelivered number would stall all later blocks); the
+// counter advances exactly when an item has been delivered, and after the delivery. The item
+// that is delivered carries the counter value read under the submit token.
+//@ func (p *BlockPipeline) Submit(ctx, blockType, rawCbor, tip) (err)
+//@   props C44
+//@   attr trackcalls on
+//@   attr safe off
+//@   requires nonnil: p != nil
+//@   ensures nogap: err != nil ==> !called("(*Uint64).Add")
+//@   ensures counted: sent(submitChan) <==> called("(*Uint64).Add")
+//@   callback send:submitChan requires seq: called("(*Uint64).Load") && arg0 != nil && arg0.sequenceNumber == callres("(*Uint64).Load") && !called("(*Uint64).Add")
+//@   callback call:(*Uint64).Add requires afterSend: sent(submitChan) && arg1 == 1
